@@ -288,13 +288,13 @@ func init() {
 		rep.AddStates(nA, nA)
 		// part B: migrations at any point of a rollout, all interleavings of GC and reconciles
 		var cases []c18Case
-		maxPods := 2
+		maxPods, maxRevs, interruptions := 3, 3, 1
 		if thorough {
-			maxPods = 3
+			maxRevs, interruptions = 4, 2
 		}
 		for _, pol := range []string{"OrderedReady", "Parallel"} {
 			for _, part := range []int32{0, 1} {
-				for n := 1; n <= 3; n++ {
+				for n := 1; n <= maxRevs; n++ {
 					for cur := 0; cur < n; cur++ {
 						for r := 1; r <= maxPods; r++ {
 							for variant := 0; variant < 4; variant++ {
@@ -349,7 +349,7 @@ func init() {
 						continue
 					}
 					sub := explore.NewReport("C18", "model_checking")
-					cfg := explore.SearchCfg{Prop: "C18", D: 1, Judge: c18Judge(sts, revs), Goal: c18Goal(sts, revs), Deadline: deadline, Workers: 1, World: w,
+					cfg := explore.SearchCfg{Prop: "C18", D: interruptions, Judge: c18Judge(sts, revs), Goal: c18Goal(sts, revs), Deadline: deadline, Workers: 1, World: w,
 						// the migration is interrupted: any single write of the adopting reconciles fails, conflicts, loses its
 						// response or is followed by a crash
 						FaultKinds: []string{world.FErr500, world.FConflict, world.FTimeout, world.FCrashAfter},
@@ -405,7 +405,7 @@ func init() {
 		rep.Extra["migration_cases"] = done
 		rep.Extra["migration_states"] = totalStates
 		rep.Extra["migration_reconciles"] = totalRec
-		rep.Rule = fmt.Sprintf("(A) byte identity: for every template of a reflective generator over PodTemplateSpec (%d single-path mutations; thorough: all pairs in the first two levels) the real Match(FromBuiltin(sts), reference data) must hold, the reference being the built-in encoding. (B) migrations: built-in sets with histories T1..Tn (n=1..3), the update revision Tn or (after a rollback) T1 renumbered past Tn, status.collisionCount 0 or 1, any current revision, 1..%d pods at any mix of current/update revision, partition 0/1, both policies, history limit 0/10; the real Upgrade runs, then all interleavings of real reconciles, one garbage-collector orphaning step per pod and revision, and kubelet progress are explored (explicit-state, deduplicated), also after any single interruption of the adopting reconciles (InternalError, conflict, lost response or crash at any write on revisions or pods); oracle on every reconcile: no revision is created, no revision of the built-in history is deleted before adoption, a pod is deleted only if the built-in controller would (RollingUpdate, ordinal >= partition, revision != update revision); every bottom SCC is a quiescent state with all revisions adopted and label-synced, data unchanged, status.updateRevision = the built-in one, pods adopted and converged. (C) the real Upgrade interleaved with the running controller: the helper runs in its own goroutine and is stopped before each of its API calls; between two calls any number of real reconciles, garbage-collector and kubelet steps may run, a failed Upgrade is re-run once; all schedules are explored by stateless re-execution with state pruning; same oracle on every reconcile, and the goal state at the end.", len(muts), maxPods)
+		rep.Rule = fmt.Sprintf("(A) byte identity: for every template of a reflective generator over PodTemplateSpec (%d single-path mutations; thorough: all pairs in the first two levels) the real Match(FromBuiltin(sts), reference data) must hold, the reference being the built-in encoding. (B) migrations: built-in sets with histories T1..Tn (n=1..%d), the update revision Tn or (after a rollback) T1 renumbered past Tn, status.collisionCount 0 or 1, any current revision, 1..%d pods at any mix of current/update revision, partition 0/1, both policies, history limit 0/10; the real Upgrade runs, then all interleavings of real reconciles, one garbage-collector orphaning step per pod and revision, and kubelet progress are explored (explicit-state, deduplicated), also after any %d interruptions of the adopting reconciles (InternalError, conflict, lost response or crash at any write on revisions or pods); oracle on every reconcile: no revision is created, no revision of the built-in history is deleted before adoption, a pod is deleted only if the built-in controller would (RollingUpdate, ordinal >= partition, revision != update revision); every bottom SCC is a quiescent state with all revisions adopted and label-synced, data unchanged, status.updateRevision = the built-in one, pods adopted and converged. (C) the real Upgrade interleaved with the running controller: the helper runs in its own goroutine and is stopped before each of its API calls; between two calls any number of real reconciles, garbage-collector and kubelet steps may run, a failed Upgrade is re-run once; all schedules are explored by stateless re-execution with state pruning; same oracle on every reconcile, and the goal state at the end.", len(muts), maxRevs, maxPods, interruptions)
 		rep.Validated = totalRec + nA
 		return rep.Finish()
 	})
